@@ -36,7 +36,7 @@ Lemma in_insert p x l : In x (insert_stable p l) -> x = p \/ In x l.
 Proof.
   induction l as [|q r IH]; simpl.
   - intros [H|[]]; auto.
-  - destruct (zs_ltb (fst q) (fst p)); simpl; intros [H|H]; auto.
+  - destruct (zs_ltb (sort_key q) (sort_key p)); simpl; intros [H|H]; auto.
     apply IH in H. tauto.
 Qed.
 
@@ -44,14 +44,14 @@ Lemma insert_sorted p l : sorted_by_name l -> sorted_by_name (insert_stable p l)
 Proof.
   induction l as [|q r IH]; simpl; intro Hs.
   - split; [intros ? []|exact I].
-  - destruct Hs as [Hq Hr]. destruct (zs_ltb (fst q) (fst p)) eqn:E; simpl.
+  - destruct Hs as [Hq Hr]. destruct (zs_ltb (sort_key q) (sort_key p)) eqn:E; simpl.
     + split; [|apply IH; exact Hr].
       intros x Hx. apply in_insert in Hx. destruct Hx as [->|Hx]; [apply ltb_asym; exact E|apply Hq; exact Hx].
     + split; [|split; assumption].
       intros x [<-|Hx]; [exact E|].
       specialize (Hq x Hx).
-      destruct (zs_ltb (fst x) (fst p)) eqn:Exp; [|reflexivity].
-      destruct (ltb_trichotomy (fst q) (fst x)) as [H|[H|H]].
+      destruct (zs_ltb (sort_key x) (sort_key p)) eqn:Exp; [|reflexivity].
+      destruct (ltb_trichotomy (sort_key q) (sort_key x)) as [H|[H|H]].
       * rewrite (ltb_trans _ _ _ H Exp) in E. discriminate.
       * rewrite H in E. rewrite Exp in E. discriminate.
       * rewrite H in Hq. discriminate.
@@ -65,10 +65,10 @@ Definition named (n : zs) (p : pair) : bool := zs_eqb (fst p) n.
 Lemma insert_filter n p l : filter (named n) (insert_stable p l) = filter (named n) (p :: l).
 Proof.
   induction l as [|q r IH]; [reflexivity|].
-  cbn [insert_stable]. destruct (zs_ltb (fst q) (fst p)) eqn:E; [|reflexivity].
+  cbn [insert_stable]. destruct (zs_ltb (sort_key q) (sort_key p)) eqn:E; [|reflexivity].
   cbn [filter] in *. rewrite IH. unfold named.
   destruct (zs_eqb (fst q) n) eqn:Eq, (zs_eqb (fst p) n) eqn:Ep; try reflexivity.
-  apply zs_eqb_eq in Eq, Ep. rewrite Eq, Ep, ltb_irrefl in E. discriminate.
+  apply zs_eqb_eq in Eq, Ep. unfold sort_key in E. rewrite Eq, Ep, ltb_irrefl in E. discriminate.
 Qed.
 
 (* stability: the pairs of each name keep their relative order (and nothing is lost or invented) *)
@@ -83,6 +83,6 @@ Proof.
   induction l as [|p l IH]; [reflexivity|]. cbn [stable_sort fold_right]. fold (stable_sort l).
   assert (H : forall q m, length (insert_stable q m) = S (length m)).
   { intros q m. induction m as [|x m IHm]; [reflexivity|]. cbn [insert_stable].
-    destruct (zs_ltb (fst x) (fst q)); simpl; [rewrite IHm|]; reflexivity. }
+    destruct (zs_ltb (sort_key x) (sort_key q)); simpl; [rewrite IHm|]; reflexivity. }
   rewrite H, IH. reflexivity.
 Qed.
